@@ -185,6 +185,7 @@ theorem constType_typeRef (hT : TblOK ctx.tbl) (e : Expr F) :
   | call1 fn a ih => intro t h; left; simp [constType]
   | call2 fn a b iha ihb => intro t h; left; simp [constType]
   | call3 fn a b d iha ihb ihd => intro t h; left; simp [constType]
+  | call4 fn a b d e iha ihb ihd ihe => intro t h; left; simp [constType]
   | callMany fn => intro t h; left; simp [constType]
 
 theorem isValTy_ne_invalid {t : Ty} (h : isValTy t = true) : t ≠ .invalid := by
@@ -268,6 +269,22 @@ theorem typeP_typeRef (hT : TblOK ctx.tbl) (e : Expr F) : ∀ t, typeRef ctx σ 
         cases hd : typeRef ctx σ d with
         | none => simp [ha, hb, hd] at h
         | some td => simp only [iha ta ha, ihb tb hb, ihd td hd]; simpa [ha, hb, hd] using h
+  | call4 fn a b d e iha ihb ihd ihe =>
+    intro t h
+    simp only [typeRef] at h
+    simp only [typeP]
+    cases ha : typeRef ctx σ a with
+    | none => simp [ha] at h
+    | some ta =>
+      cases hb : typeRef ctx σ b with
+      | none => simp [ha, hb] at h
+      | some tb =>
+        cases hd : typeRef ctx σ d with
+        | none => simp [ha, hb, hd] at h
+        | some td =>
+          cases he : typeRef ctx σ e with
+          | none => simp [ha, hb, hd, he] at h
+          | some te => simp only [iha ta ha, ihb tb hb, ihd td hd, ihe te he]; simpa [ha, hb, hd, he] using h
   | callMany fn => intro t h; simp [typeRef] at h
 
 /-- a well-typed non-dynamic expression has its reference type as constant type. -/
@@ -310,6 +327,7 @@ theorem constType_nondyn (hT : TblOK ctx.tbl) (e : Expr F) :
   | call1 fn a ih => intro t h hd; simp [isDyn] at hd
   | call2 fn a b iha ihb => intro t h hd; simp [isDyn] at hd
   | call3 fn a b d iha ihb ihd => intro t h hd; simp [isDyn] at hd
+  | call4 fn a b d e iha ihb ihd ihe => intro t h hd; simp [isDyn] at hd
   | callMany fn => intro t h hd; simp [isDyn] at hd
 
 /-! ### the evaluator against the big-step reference -/
@@ -322,6 +340,7 @@ def noMissingLit : Expr F → Bool
   | .call1 _ a => noMissingLit a
   | .call2 _ a b => noMissingLit a && noMissingLit b
   | .call3 _ a b d => noMissingLit a && noMissingLit b && noMissingLit d
+  | .call4 _ a b d e => noMissingLit a && noMissingLit b && noMissingLit d && noMissingLit e
   | _ => true
 
 /-- the signature of a builtin the model defines itself declares the type the builtin returns (`Lib.builtinRet`
@@ -522,6 +541,23 @@ theorem typeRef_shape (hF : FnOK ctx) (e : Expr F) (t : Ty) (hwf : noMissingLit 
           simp [ha, hb, hd] at h
           have := hsig _ _ h
           exact ⟨this.1, fun hm => absurd hm this.2⟩
+  | call4 fn a b d e =>
+    simp only [typeRef] at h
+    cases ha : typeRef ctx σ a with
+    | none => simp [ha] at h
+    | some ta =>
+      cases hb : typeRef ctx σ b with
+      | none => simp [ha, hb] at h
+      | some tb =>
+        cases hd : typeRef ctx σ d with
+        | none => simp [ha, hb, hd] at h
+        | some td =>
+          cases he : typeRef ctx σ e with
+          | none => simp [ha, hb, hd, he] at h
+          | some te =>
+            simp [ha, hb, hd, he] at h
+            have := hsig _ _ h
+            exact ⟨this.1, fun hm => absurd hm this.2⟩
   | callMany fn => simp [typeRef] at h
 
 /-- the statement proved by induction: on a well-typed point the evaluator asked for the reference type
@@ -769,6 +805,78 @@ theorem agree_all (hT : TblOK ctx.tbl) (hF : FnOK ctx) (e : Expr F) : noMissingL
             | trap => exact ⟨rfl, b2⟩
           | err => exact ⟨rfl, a2⟩
           | trap => exact ⟨rfl, a2⟩
+  | call4 fn a b d e iha ihb ihd ihe =>
+    intro hwf t st h hr ht
+    have w : ((noMissingLit a = true ∧ noMissingLit b = true) ∧ noMissingLit d = true) ∧ noMissingLit e = true := by
+      simpa [noMissingLit] using hwf
+    simp only [typeRef] at ht
+    cases hta : typeRef ctx σ a with
+    | none => simp [hta] at ht
+    | some ta =>
+      cases htb : typeRef ctx σ b with
+      | none => simp [hta, htb] at ht
+      | some tb =>
+        cases htd : typeRef ctx σ d with
+        | none => simp [hta, htb, htd] at ht
+        | some td =>
+          cases hte : typeRef ctx σ e with
+          | none => simp [hta, htb, htd, hte] at ht
+          | some te =>
+            simp [hta, htb, htd, hte] at ht
+            obtain ⟨a1, a2, a3⟩ := arg_agree ctx σ hT hF a ta st h w.1.1.1 hr hta (iha w.1.1.1)
+            simp only [evalN, valRef]
+            rcases hv : valRef ctx σ a h with ⟨ro, h1⟩
+            rcases hn : argEvalN (typeP ctx σ a) (missOk a) st (fun t => evalN ctx σ t a st) with ⟨r1, s1⟩
+            rw [hv, hn] at a1 a2
+            rw [hv] at a3
+            simp only at a1 a2 a3
+            subst a1
+            cases r1 with
+            | ok v1 =>
+              simp only
+              obtain ⟨b1, b2, b3⟩ := arg_agree ctx σ hT hF b tb s1 h1 w.1.1.2 a2 htb (ihb w.1.1.2)
+              rcases hv2 : valRef ctx σ b h1 with ⟨ro2, h2⟩
+              rcases hn2 : argEvalN (typeP ctx σ b) (missOk b) s1 (fun t => evalN ctx σ t b s1) with ⟨r2, s2⟩
+              rw [hv2, hn2] at b1 b2
+              rw [hv2] at b3
+              simp only at b1 b2 b3
+              subst b1
+              cases r2 with
+              | ok v2 =>
+                simp only
+                obtain ⟨d1, d2, d3⟩ := arg_agree ctx σ hT hF d td s2 h2 w.1.2 b2 htd (ihd w.1.2)
+                rcases hv3 : valRef ctx σ d h2 with ⟨ro3, h3⟩
+                rcases hn3 : argEvalN (typeP ctx σ d) (missOk d) s2 (fun t => evalN ctx σ t d s2) with ⟨r3, s3⟩
+                rw [hv3, hn3] at d1 d2
+                rw [hv3] at d3
+                simp only at d1 d2 d3
+                subst d1
+                cases r3 with
+                | ok v3 =>
+                  simp only
+                  obtain ⟨e1, e2, e3⟩ := arg_agree ctx σ hT hF e te s3 h3 w.2 d2 hte (ihe w.2)
+                  rcases hv4 : valRef ctx σ e h3 with ⟨ro4, h4⟩
+                  rcases hn4 : argEvalN (typeP ctx σ e) (missOk e) s3 (fun t => evalN ctx σ t e s3) with ⟨r4, s4⟩
+                  rw [hv4, hn4] at e1 e2
+                  rw [hv4] at e3
+                  simp only at e1 e2 e3
+                  subst e1
+                  cases r4 with
+                  | ok v4 =>
+                    simp only
+                    obtain ⟨c1, c2⟩ := callFn_refCall ctx fn [v1, v2, v3, v4] s4 h4 e2
+                    have hs : sigType ctx fn ([v1, v2, v3, v4].map Value.ty) = some t := by
+                      simpa [a3 v1 rfl, b3 v2 rfl, d3 v3 rfl, e3 v4 rfl] using ht
+                    rw [chk_id t _ (fun v hv => call_ty ctx hF fn [v1, v2, v3, v4] s4 t v hs hv)]
+                    exact ⟨c1, c2⟩
+                  | err => exact ⟨rfl, e2⟩
+                  | trap => exact ⟨rfl, e2⟩
+                | err => exact ⟨rfl, d2⟩
+                | trap => exact ⟨rfl, d2⟩
+              | err => exact ⟨rfl, b2⟩
+              | trap => exact ⟨rfl, b2⟩
+            | err => exact ⟨rfl, a2⟩
+            | trap => exact ⟨rfl, a2⟩
   | bin op l r ihl ihr =>
     intro hwf t st h hr ht
     have w : noMissingLit l = true ∧ noMissingLit r = true := by simpa [noMissingLit] using hwf
